@@ -370,9 +370,8 @@ class ABTest(Selector):
 
     def select(self, registry: 'asset.Directory', context: typing.Any, stats: 'runtime.Stats') -> 'asset.Instance':
         self._total += 1
-        for slot in self._slots:
-            if slot.eligible(self._total):
-                break
-        else:
+        eligible = [s for s in self._slots if s.eligible(self._total)]
+        if not eligible:
             raise RuntimeError('No eligible slots')
-        return slot.hit(registry)
+        # quota method: among the slots below their quota serve the one with the earliest deadline
+        return max(eligible, key=lambda s: s.target / (s.count + 1)).hit(registry)
